@@ -19,9 +19,9 @@ P = {
     "design": [{"module": "I_Ring", "cfg": "MC_I_Ring_quick.cfg", "thorough_cfg": "MC_I_Ring.cfg", "workers": 4,
                 "timeout": 900, "thorough_timeout": 3000}],
     "gen": {"module": "Gen_Ring", "cfg": "Gen_sim.cfg", "simulate": {"num": 40, "depth": 25},
-            "thorough_simulate": {"num": 3000, "depth": 25}, "timeout": 600, "thorough_timeout": 1800},
+            "thorough_simulate": {"num": 1000, "depth": 25}, "timeout": 600, "thorough_timeout": 1800},
     "driver": {"cmd": "ring"},
-    "n_random": (80, 6000),
+    "n_random": (80, 2000),
     "trace": {"module": "T_Ring", "cfg": "T_Ring.cfg", "timeout": 1200},
     "chunk": 60000,
     "signature": signature,
